@@ -87,6 +87,7 @@ type c18World struct {
 	hist   []string // symbolic history since reset (for replays)
 
 	commitVal []byte
+	ackVal    []byte
 	tmSnap    *tmtypes.Header // counterparty header used by the most recent `tm` client state
 	bscGen    *bsctypes.BscHeader
 	bscVals   [][]byte
@@ -138,6 +139,15 @@ func newC18World(t *testing.T) *c18World {
 	h := sha256.Sum256([]byte("c18 packet"))
 	w.commitVal = h[:]
 	w.chainB.App.XIBCKeeper.PacketKeeper.SetPacketCommitment(w.chainB.GetContext(), c18Src, c18Dst, c18Seq, w.commitVal)
+	// the packet this chain receives from the chain it knows under <name> (commitments/<name>/<self>/sequences/n) and the
+	// acknowledgement of the packet it sent there (acks/<self>/<name>/sequences/n): the proof paths contain the name
+	self := w.app.XIBCKeeper.ClientKeeper.GetChainName(w.chainA.GetContext())
+	ackH := sha256.Sum256([]byte("c18 ack"))
+	w.ackVal = ackH[:]
+	for _, sn := range c18ValidNames {
+		w.chainB.App.XIBCKeeper.PacketKeeper.SetPacketCommitment(w.chainB.GetContext(), c18Name(sn), self, c18Seq, w.commitVal)
+		w.chainB.App.XIBCKeeper.PacketKeeper.SetPacketAcknowledgement(w.chainB.GetContext(), self, c18Name(sn), c18Seq, w.ackVal)
+	}
 	w.coord.CommitBlock(w.chainB)
 	w.coord.CommitBlock(w.chainB)
 	w.coord.CommitBlock(w.chainB)
@@ -1062,6 +1072,37 @@ func c18Others(dump, name string) string {
 	return strings.Join(keep, ",")
 }
 
+// symbolic names of valid chain names: the counterparty commits a packet (src = that name, dst = this chain) and an
+// acknowledgement (src = this chain, dst = that name) for each of them, so that the proof paths contain the name
+var c18ValidNames = []string{"N0", "N1", "N2", "Nmin", "Nmax", "Nupper", "Npfx", "Nchars", "Ndigits", "N63",
+	"Nc+", "Nc.", "Nc_", "Nc#", "Nc[", "Nc]", "Nc<", "Nc>", "Nc-", "NcU", "Ncl"}
+
+// which character class of IsValidID a chain name exercises (the first special character; else its letters / digits)
+func c18NameClass(n string) string {
+	cl := map[byte]string{'+': "plus", '.': "dot", '_': "underscore", '#': "hash", '[': "lbracket", ']': "rbracket", '<': "lt", '>': "gt", '-': "dash"}
+	multi := 0
+	first := ""
+	for i := 0; i < len(n); i++ {
+		if c, ok := cl[n[i]]; ok {
+			if first == "" {
+				first = c
+			}
+			multi++
+		}
+	}
+	switch {
+	case multi > 3:
+		return "all-classes"
+	case first != "":
+		return first
+	case strings.ToUpper(n) == n && strings.ToLower(n) != n:
+		return "upper"
+	case strings.Trim(n, "0123456789") == "":
+		return "digits"
+	}
+	return "lower"
+}
+
 func c18b(b bool) int {
 	if b {
 		return 1
@@ -1082,6 +1123,28 @@ func c18Name(s string) string {
 		return "bsc.main"
 	case "N2":
 		return "eth_1"
+	case "Nc+":
+		return "ab+cd"
+	case "Nc.":
+		return "ab.cd"
+	case "Nc_":
+		return "ab_cd"
+	case "Nc#":
+		return "ab#cd"
+	case "Nc[":
+		return "ab[cd"
+	case "Nc]":
+		return "ab]cd"
+	case "Nc<":
+		return "ab<cd"
+	case "Nc>":
+		return "ab>cd"
+	case "Nc-":
+		return "ab-cd"
+	case "NcU":
+		return "ABCD"
+	case "Ncl":
+		return "abcd"
 	case "Nchars": // every character class IsValidID allows
 		return "a.B_c+9-e#f[g]h<i>J"
 	case "Nupper": // differs from N0 only by case
@@ -1341,7 +1404,7 @@ func (w *c18World) verify(r *Rec, f []string) (string, string) {
 	}
 	st := ck.ClientStore(w.ctx, n)
 	ty := c18TyOfCS(cs)
-	var proof []byte
+	var proof, ackProof []byte
 	member := false
 	h := cs.GetLatestHeight().(clienttypes.Height)
 	ptxt := "-"
@@ -1362,7 +1425,8 @@ func (w *c18World) verify(r *Rec, f []string) (string, string) {
 			if f[2] == "hi" {
 				h.RevisionHeight++
 			}
-			proof, _ = w.chainB.QueryProofAtHeight(host.PacketCommitmentKey(c18Src, c18Dst, c18Seq), w.proofH)
+			proof, _ = w.chainB.QueryProofAtHeight(host.PacketCommitmentKey(n, w.self, c18Seq), w.proofH)
+			ackProof, _ = w.chainB.QueryProofAtHeight(host.PacketAcknowledgementKey(w.self, n, c18Seq), w.proofH)
 			// ground truth of the membership: the proof commits to the counterparty's root at proofH, which is the root of
 			// every genuine synthetic consensus state (a proposal may have paired the client state with a foreign one)
 			member = false
@@ -1389,7 +1453,8 @@ func (w *c18World) verify(r *Rec, f []string) (string, string) {
 		if int64(qh) > w.chainB.App.LastBlockHeight()+1 || qh < 2 {
 			return "noop", "skip"
 		}
-		proof, _ = w.chainB.QueryProofAtHeight(host.PacketCommitmentKey(c18Src, c18Dst, c18Seq), int64(qh))
+		proof, _ = w.chainB.QueryProofAtHeight(host.PacketCommitmentKey(n, w.self, c18Seq), int64(qh))
+		ackProof, _ = w.chainB.QueryProofAtHeight(host.PacketAcknowledgementKey(w.self, n, c18Seq), int64(qh))
 		member = true
 		if f[2] == "bad" {
 			proof[len(proof)/2] ^= 0x55
@@ -1412,7 +1477,7 @@ func (w *c18World) verify(r *Rec, f []string) (string, string) {
 		member = true
 		var verr error
 		pan, _ := safely(func() {
-			verr = cs.VerifyPacketCommitment(w.ctx, st, w.cdc, h, proof, c18Src, c18Dst, c18Seq, w.commitVal)
+			verr = cs.VerifyPacketCommitment(w.ctx, st, w.cdc, h, proof, n, w.self, c18Seq, w.commitVal)
 		})
 		if !pan && tracked && (verr == nil) != (a == want) {
 			w.find(r, "C18:tss-proof-verdict-differs-from-installed-address", fmt.Sprintf("TSS client must hold address %s (proposal / accepted key rotations); proof naming %s: accepted=%v", want, a, verr == nil), fmt.Sprint(verr == nil), fmt.Sprint(a == want))
@@ -1422,7 +1487,7 @@ func (w *c18World) verify(r *Rec, f []string) (string, string) {
 	}
 	var err error
 	pan, _ := safely(func() {
-		err = cs.VerifyPacketCommitment(w.ctx, st, w.cdc, h, proof, c18Src, c18Dst, c18Seq, w.commitVal)
+		err = cs.VerifyPacketCommitment(w.ctx, st, w.cdc, h, proof, n, w.self, c18Seq, w.commitVal)
 	})
 	out := "ok"
 	if pan {
@@ -1431,6 +1496,23 @@ func (w *c18World) verify(r *Rec, f []string) (string, string) {
 		out = "err"
 	}
 	r.Count("verify." + ty + "." + f[2] + "." + out)
+	class := c18NameClass(n)
+	if ty == "tm" && (f[2] == "latest" || f[2] == "installed") {
+		r.Count("verify.tm." + f[2] + "." + out + ".name-class." + class)
+	}
+	// the acknowledgement path (acks/<self>/<name>/sequences/n) must give the same verdict as the commitment path
+	if ty == "tm" && ackProof != nil && (f[2] == "latest" || f[2] == "installed") && member && out == "ok" {
+		var aerr error
+		apan, _ := safely(func() {
+			aerr = cs.VerifyPacketAcknowledgement(w.ctx, st, w.cdc, h, ackProof, w.self, n, c18Seq, w.ackVal)
+		})
+		if apan || aerr != nil {
+			r.Count("verify.tm.ack.err.name-class." + class)
+			w.find(r, "C18:genuine-ack-proof-rejected:tm:name-"+class, "the commitment proof under this chain name verifies but the genuine acknowledgement proof is rejected: "+fmt.Sprint(aerr), "err", "ok")
+		} else {
+			r.Count("verify.tm.ack.ok.name-class." + class)
+		}
+	}
 	// oracle: a genuine proof at the client's latest height verifies once the delay has passed, if the client is active
 	if (f[2] == "latest" || f[2] == "installed") && member && out != "ok" && cs.Status(w.ctx, st, w.cdc) == exported.Active {
 		pass := true
@@ -1445,7 +1527,7 @@ func (w *c18World) verify(r *Rec, f []string) (string, string) {
 			}
 		}
 		if pass {
-			w.find(r, "C18:genuine-proof-rejected:"+ty, "client is Active, delay passed, but a genuine proof at the installed height is rejected: "+fmt.Sprint(err), out, "ok")
+			w.find(r, "C18:genuine-proof-rejected:"+ty+":name-"+class, "client is Active, delay passed, but a genuine proof at the installed / latest height, on the path commitments/"+n+"/"+w.self+"/sequences/…, is rejected: "+fmt.Sprint(err), out, "ok")
 		}
 	}
 	return fmt.Sprintf("verify %s %d %d %d %s", hxs(n), h.RevisionNumber, h.RevisionHeight, c18b(member), ptxt), out
@@ -2142,6 +2224,26 @@ func c18Revisions() [][]string {
 	return out
 }
 
+// the chain-name dimension reaches the PROOF PATH: a Tendermint client of the live counterparty (and of a synthetic chain)
+// under a name of every character class IsValidID allows — created with a time delay (too early / exactly at / after the
+// delay), updated, upgraded, toggled in — and genuine ICS-23 proofs of commitments/<name>/<self>/… and
+// acks/<self>/<name>/… at the installed and at the latest height
+func c18NameClasses() [][]string {
+	var out [][]string
+	for _, nm := range []string{"Nc+", "Nc.", "Nc_", "Nc#", "Nc[", "Nc]", "Nc<", "Nc>", "Nc-", "NcU", "Ncl", "Ndigits", "Nchars", "Nmax"} {
+		rel := []string{"reset", "relayer r0 " + nm, "relayer tssA " + nm, "time tm 1"}
+		h := append(append([]string{}, rel...), "create "+nm+" tmd tm", "status "+nm, "verify "+nm+" installed", "time now 19", "verify "+nm+" installed",
+			"time now 1", "timens -1", "verify "+nm+" installed", "timens 1", "verify "+nm+" installed", "verify "+nm+" latest",
+			"time tm 30", "update "+nm+" r0 next", "time now 25", "verify "+nm+" latest", "verify "+nm+" installed", "restart",
+			"time tm 1", "upgrade "+nm+" tm tm", "verify "+nm+" installed", "verify "+nm+" latest")
+		out = append(out, h)
+		h = append(append([]string{}, rel...), "create "+nm+" tssA tss", "time tm 1", "toggle "+nm+" tm tm", "verify "+nm+" installed",
+			"time tmr0 60", "toggle "+nm+" tssA tss", "toggle "+nm+" tmr0 tmr0", "verify "+nm+" installed", "update "+nm+" r0 next", "verify "+nm+" latest", "verify "+nm+" installed")
+		out = append(out, h)
+	}
+	return out
+}
+
 // (D) two proposals about the same client decided in the same block, executed one after the other in both orders
 // (each passed ValidateBasic at its submission, before either ran); and two creates of the same name
 func c18InFlight() [][]string {
@@ -2443,6 +2545,9 @@ func TestC18(t *testing.T) {
 			run(h)
 		}
 		for _, h := range c18Revisions() {
+			run(h)
+		}
+		for _, h := range c18NameClasses() {
 			run(h)
 		}
 	}
